@@ -23,6 +23,11 @@ struct CmdSpec {
   std::vector<std::string> outs, reads, hidden;
   std::string depfile, rsp, print;
   bool msvc = false, restat = false, gen = false, copy = false, depall = false;
+  // how this tool spells names in its depfile / showIncludes output (canonical name -> spelling), and
+  // whether it names all of its outputs as depfile targets (dsp=<hex of a=./a;b=x/../b>, dall=1)
+  std::map<std::string, std::string> dspell;
+  bool dall = false;
+  std::string Spelled(const std::string& n) const { auto i = dspell.find(n); return i == dspell.end() ? n : i->second; }
   std::string id() const { return outs.empty() ? line : outs[0]; }
 };
 CmdSpec ParseCmd(const std::string& line);
